@@ -64,6 +64,17 @@ CHECKS['C01'] = dict(
     note='Trusted: clang lowering, irdump, absint, the sequence model in checks/shape.py + checks/c01.py. Excluded by '
          'precondition: a node used as its own anchor; dlist_add_* on an already linked node. Loops (~dlist_base, clear) on '
          'explicit rings up to 3 elements.')
+CHECKS['C17'] = dict(
+    category='other', design_ref='DESIGN.md 5/C17',
+    technique='abstract interpretation in a GF(2)-affine bit-vector domain (exact transformer of each CRC step vs. the polynomial definition); linear-inequality abstract interpretation for the data reads',
+    text='For every routine the per-byte/per-word update step is computed as an exact affine map over GF(2) for all register '
+         'and data values at once (bit loops fully unrolled by LLVM, look-up tables proved affine in their index) and must '
+         'equal the map generated from the bit-serial mathematical definition (CRC-8 Dallas 0x8C reflected: bit-serial and '
+         '2x16 table; CRC-16 0x1021; MMC CRC-7 0x09; streaming CRC-8 0x31; CRC-32 0x04C11DB7 word-wise, little-endian lanes). '
+         'Fold structure gives piecewise == one-shot, linearity in crc^byte gives residue 0, and all data reads are single '
+         'bytes inside [data, data+length).',
+    note='Trusted: clang + LLVM unroll/GVN/simplifycfg passes (semantics preserving), irdump, checks/gf2.py, absint. A routine '
+         'whose bit loop LLVM cannot unroll is reported as analysis-broken, not as held.')
 NA_REASON = 'check not built yet (work in progress; see DESIGN.md section 9)'
 
 m = {"version": 1,
